@@ -85,6 +85,7 @@ func sqliInit(s *sqliState, input string, flags int) {
 //	         double quote.
 func (s *sqliState) sqliFingerprint(flags int) string {
 	s.reset(flags)
+	verifSQLiEvent(2, s)
 	length := s.fold()
 
 	// check for magic PHP backquote comment
@@ -117,6 +118,7 @@ func (s *sqliState) sqliFingerprint(flags int) string {
 			s.fingerprint = string(sqliTokenTypeEvil)
 			s.tokenVec[0].category = sqliTokenTypeEvil
 			s.tokenVec[0].val = string(sqliTokenTypeEvil)
+			verifSQLiEvent(4, s)
 			return s.fingerprint
 		}
 
@@ -124,6 +126,7 @@ func (s *sqliState) sqliFingerprint(flags int) string {
 	}
 
 	s.fingerprint = fp.String()
+	verifSQLiEvent(4, s)
 	return s.fingerprint
 }
 
@@ -202,6 +205,7 @@ func (s *sqliState) fold() int {
 	pos++
 
 	for {
+		verifFoldIter(s, pos, left, more, &lastComment)
 		// do we have all the max number of tokens? if so do
 		// some special cases for 5 tokens
 		if pos >= maxTokens {
@@ -893,9 +897,12 @@ func (s *sqliState) check() bool {
 func IsSQLi(input string) (bool, string) {
 	state := new(sqliState)
 	sqliInit(state, input, 0)
+	verifSQLiEvent(1, state)
 	result := state.check()
 	if result {
+		verifSQLiEvent(5, state)
 		return result, state.fingerprint
 	}
+	verifSQLiEvent(5, state)
 	return result, ""
 }
